@@ -105,6 +105,12 @@ func init() {
 			st.assume(And(Le(IntLit(0), n), Le(n, buf.Len())))
 			st.assume(Implies(Eq(err.Tag(), IntLit(0)), Eq(n, buf.Len())))
 			st.assume(Implies(Ne(err.Tag(), IntLit(0)), Lt(n, buf.Len())))
+			// A-RAND: a successful ReadFull from crypto/rand.Reader fills the buffer with fresh random bytes
+			if g, ok := inCallArg(in, 0).(*ssa.UnOp); ok {
+				if gl, ok2 := g.X.(*ssa.Global); ok2 && gl.Pkg.Pkg.Path() == "crypto/rand" && gl.Name() == "Reader" {
+					st.assume(Implies(Eq(err.Tag(), IntLit(0)), App("spec.randFilled", SBool, buf.Arr(), buf.Off(), buf.Len())))
+				}
+			}
 			return res
 		},
 	}
@@ -162,4 +168,14 @@ func scalarish(t types.Type) bool {
 		return true
 	}
 	return false
+}
+
+func inCallArg(in ssa.Instruction, i int) ssa.Value {
+	switch c := in.(type) {
+	case *ssa.Call:
+		if i < len(c.Call.Args) {
+			return c.Call.Args[i]
+		}
+	}
+	return nil
 }
